@@ -87,6 +87,14 @@ type Program struct {
 	Den  []Den  `json:"den"`
 }
 
+// WordSource is the spelling of a word id in the template source.
+func WordSource(id string) string {
+	if t, ok := WordSources[id]; ok {
+		return t
+	}
+	return WordText(id)
+}
+
 // WordText is the static text of a word id.
 func WordText(id string) string {
 	if t, ok := WordTexts[id]; ok {
@@ -104,7 +112,7 @@ func ParseProgram(line []byte) (Program, error) {
 // Values of the abstract identifiers.
 var (
 	// ExprValues are what env.E(i) returns: no whitespace, but markup metacharacters.
-	ExprValues = map[string]string{"E1": `V1<&>`, "E2": `V2"'=`, "M1": `M1&v`, "K1": "cls1", "K12": "cls1 cls2"}
+	ExprValues = map[string]string{"E1": `V1<&>`, "E2": `V2"'=`, "M1": `M1&v`, "K1": "cls1", "K12": "cls1 cls2", "E3": `V3;&#39;`}
 	// ConstSpelled is how a constant attribute value id is written in the source (double-quoted form);
 	// ConstDecoded is the value the attribute denotes.
 	ConstDecoded = map[string]string{"k1": "v1", "k2": "a&b<c", "k3": `q"q`, "k4": "x&lt;y&#39;", "k5": "/e?a=1&copy=2&lt=3", "k6": `C:\temp\new\d+`}
@@ -113,7 +121,10 @@ var (
 	// WordTexts maps word ids to their text where it is not the id itself: w3 carries the characters that need
 	// escaping when static text is written into a Go string literal of the generated code (quote, backslash,
 	// backtick, non-ASCII, a control-free multi-byte dash) -- no whitespace and none of < { }.
-	WordTexts   = map[string]string{"w3": "q\"b\\c`–é"}
+	WordTexts = map[string]string{"w3": "q\"b\\c`–é", "w4": "a\u00a0b<c&d"}
+	// WordSources is how a word is spelled in the template when that differs from its text: w4 uses character
+	// references in static text (the generator writes them through, the browser decodes them)
+	WordSources = map[string]string{"w4": "a&nbsp;b&lt;c&amp;d"}
 	RawContents = map[string]string{"style": "p{color:red}", "script": "var x = 1 < 2 && 3 > 2;"}
 )
 
@@ -171,6 +182,9 @@ func num(id string) string { return id[1:] }
 
 func (p *printer) expr(id string) string {
 	call := "env." + id[:1] + "(" + num(id) + ")"
+	if id == "E3" {
+		call = "env.EE(3)" // a (string, error) call
+	}
 	// (a string expression with a trailing LINE comment, `{ e // c <newline> }`, parses but its generated Go is not
 	// gofmt-valid, so it is not an accepted template and is outside the properties' precondition)
 	if p.v == 3 && p.odd&OddExprComment != 0 && id[:1] == "E" {
@@ -301,7 +315,7 @@ func (p *printer) node(n Node, depth int) {
 	case "text":
 		// a text's value runs up to the next tag, brace or line break and keeps its trailing spaces verbatim,
 		// so the spelling variants do not vary the whitespace that belongs to the value
-		p.sb.WriteString(WordText(n.W))
+		p.sb.WriteString(WordSource(n.W))
 		switch {
 		case n.Tr == "h":
 			p.sb.WriteString(" ")
